@@ -10,7 +10,8 @@ use serde_json::Value as J;
 use std::collections::BTreeMap;
 use std::panic::{catch_unwind, AssertUnwindSafe};
 
-pub const DBS: [&str; 2] = ["d0", "d1"];
+/// (one name is a proper prefix of the other: object listings by prefix, key prefixes)
+pub const DBS: [&str; 2] = ["d1", "d10"];
 pub const KEYS: &[&str] = &["a", "ab", "ké", "b"];
 
 #[derive(Clone, Debug, Serialize, Deserialize, PartialEq)]
